@@ -176,6 +176,34 @@ pub fn run_c16(seed: u64, n: usize, out: &mut Out) {
     let psl = crate::c12::Psl::load();
     let scripts = script_pool();
     let resources: Vec<_> = ["f1", "f2", "f3"].iter().map(|n| mk_resource(&format!("{}.js", n), &[], ResourceType::Mime(MimeType::ApplicationJavascript), &format!("function {}() {{ BODY }}", n), 0)).collect();
+    // injections that cannot be resolved (scriptlet not loaded, or needing a permission the list does not have) next to ones that
+    // can: every resolvable injection scoped to the host is emitted, on every call (the scriptlets are visited in hash-map order)
+    for _ in 0..(n / 25).max(8) {
+        let h: &str = r.pick(&["a.com", "b.co.uk", "c.org"]);
+        let mut lines = vec![format!("{}##+js(f1, one)", h), format!("sub.{}##+js(f2, two)", h)];
+        let ent = h.split('.').next().unwrap_or("a");
+        for k in 0..1 + r.below(3) {
+            lines.push(match r.below(4) {
+                0 => format!("{}.*##+js(not-loaded-{}, three)", ent, k),
+                1 => format!("{}##+js(nope{}.js)", h, k),
+                2 => format!("sub.{}##+js(missing, {})", h, k),
+                _ => format!("{}##+js(f2, extra{})", h, k),
+            });
+        }
+        let mut e = Engine::from_rules_parametrised(&lines, Default::default(), true, true);
+        e.use_resources(resources.clone());
+        let url = format!("https://sub.{}/page", h);
+        for rep in 0..24 {
+            let got = e.url_cosmetic_resources(&url).injected_script;
+            let have: HashSet<&str> = got.lines().collect();
+            for want in ["f1(\"one\")", "f2(\"two\")"] {
+                if !have.contains(want) {
+                    out.fail("resolvable-injection-missing-next-to-an-unresolvable-one", None, json!({"rules": lines, "url": url, "call": rep, "missing": want, "injected_script": got}));
+                }
+            }
+            out.bump("unresolvable_injection_probes");
+        }
+    }
     for _ in 0..n {
         let nr = 1 + r.below(10);
         let mut lines: Vec<String> = (0..nr).map(|_| gen_rule(&mut r, &scripts)).collect();
@@ -364,8 +392,10 @@ pub fn run_c17(seed: u64, n: usize, out: &mut Out) {
         // plain CSS selectors (non-ASCII identifiers included) of which it is known that the rule is a cosmetic one
         let mut known_plain: Vec<String> = vec![];
         for _ in 0..nr {
-            let from_fixed_list = r.pct(15);
-            let s = if from_fixed_list { r.pick(&["#\u{43d}\u{435}\u{434}\u{435}\u{43b}\u{44f}", ".\u{440}\u{435}\u{43a}\u{43b}\u{430}\u{43c}\u{430}", ".ad-\u{431}\u{430}\u{43d}\u{43d}\u{435}\u{440}", "#pub-publicit\u{e9} > div", ".promo\\:st\u{f8}rre", ".caf\\\u{e9}-banner", ".caf\\\u{e9}-banner > .inner", "#\\\u{5e83}\u{544a}-top", ".x\\\u{1f600}y", ".\u{65e5}\u{672c}\u{8a9e}\u{5e83}\u{544a}", "#\u{5e83}\u{544a} > div", ".a\u{e9}-box .inner", ".\u{5e83}", "#a\u{5e83}"]).to_string() } else { sel(&mut r) };
+            let from_fixed_list = r.pct(20);
+            let s = if from_fixed_list { r.pick(&["#\u{43d}\u{435}\u{434}\u{435}\u{43b}\u{44f}", ".\u{440}\u{435}\u{43a}\u{43b}\u{430}\u{43c}\u{430}", ".ad-\u{431}\u{430}\u{43d}\u{43d}\u{435}\u{440}", "#pub-publicit\u{e9} > div", ".promo\\:st\u{f8}rre", ".caf\\\u{e9}-banner", ".caf\\\u{e9}-banner > .inner", "#\\\u{5e83}\u{544a}-top", ".x\\\u{1f600}y", ".\u{65e5}\u{672c}\u{8a9e}\u{5e83}\u{544a}", "#\u{5e83}\u{544a} > div", ".a\u{e9}-box .inner", ".\u{5e83}", "#a\u{5e83}",
+                // zero-width (non-)joiners are ordinary identifier characters (Persian, Indic scripts): nothing may be removed from a rule line
+                ".\u{645}\u{6cc}\u{200c}\u{62e}\u{648}\u{627}\u{647}\u{645}", "#\u{646}\u{631}\u{645}\u{200c}\u{627}\u{641}\u{632}\u{627}\u{631}", ".a\u{200d}b > div", ".\u{915}\u{94d}\u{200d}\u{937}", "#x\u{200b}y", ".z\u{feff}w"]).to_string() } else { sel(&mut r) };
             if from_fixed_list {
                 known_plain.push(s.clone());
             }
@@ -452,6 +482,13 @@ pub fn run_c17(seed: u64, n: usize, out: &mut Out) {
                     continue;
                 }
             };
+            // the selector of a rule is the text after the separator, character for character (the loader removes nothing from it)
+            if let Some(k) = known_plain.iter().find(|k| l.ends_with(k.as_str())) {
+                if &s != k {
+                    out.fail("selector-text-altered-by-the-loader", None, json!({"line": l, "selector_in_the_line": k, "selector_loaded": s}));
+                }
+                out.bump("known_selector_text_probes");
+            }
             let key = adblock::cosmetic_filter_cache::verif_key_from_selector(&s);
             let via_site = site.hide_selectors.contains(&s);
             let via_lookup = match &key {
